@@ -158,3 +158,32 @@ Proof.
     rewrite bg_wrap_small by lia.
     rewrite (IH (acc + c) z H2 eq_refl) by lia. f_equal. lia.
 Qed.
+
+(* ---------- per-sender nonce continuity (statement helpers) ---------- *)
+(* [nz c] is the last nonce used by sender c; a list is consecutive when every transaction's nonce
+   is the successor (in int64 arithmetic) of its sender's last nonce *)
+Definition bg_upd (nz : Z -> Z) (t : bg_txn) : Z -> Z :=
+  fun c => if c =? bt_client t then bt_nonce t else nz c.
+
+Fixpoint bg_consec (nz : Z -> Z) (l : list bg_txn) : Prop :=
+  match l with
+  | [] => True
+  | t :: r => bg_wrap (bt_nonce t - nz (bt_client t)) = 1 /\ bg_consec (bg_upd nz t) r
+  end.
+
+Fixpoint bg_nzfold (nz : Z -> Z) (l : list bg_txn) : Z -> Z :=
+  match l with
+  | [] => nz
+  | t :: r => bg_nzfold (bg_upd nz t) r
+  end.
+
+Lemma bg_nzfold_snoc nz l t : bg_nzfold nz (l ++ [t]) = bg_upd (bg_nzfold nz l) t.
+Proof. revert nz. induction l; simpl; intros; auto. Qed.
+
+Lemma bg_consec_snoc nz l t :
+  bg_consec nz (l ++ [t]) <-> bg_consec nz l /\ bg_wrap (bt_nonce t - bg_nzfold nz l (bt_client t)) = 1.
+Proof.
+  revert nz. induction l as [|a r IH]; simpl; intros nz.
+  - tauto.
+  - rewrite IH. tauto.
+Qed.
